@@ -397,10 +397,21 @@ def scan_on(chk: Check, rule: str) -> None:
     chk.ob(rule, key + ":intersects-half-open", ok_ref, f.loc(),
            "nodes_on must keep exactly the addressed nodes of non-zero size whose range [B, B+size) "
            "intersects [START, STOP); the code keeps %s" % _show(got), 6)
-    guard = any(isinstance(n, ast.Compare) and isinstance(n.ops[0], ast.IsNot)
-                and isinstance(n.comparators[0], ast.Constant) and n.comparators[0].value is None
-                for n in walk_no_nested(f.node))
-    chk.ob(rule, key + ":address-known", guard, f.loc(), "nodes without an address must be skipped", 1)
+    from ..cfg import CFG as _CFG
+    cfgs = _CFG(f.node)
+    known = set()
+    for tn, i in cfgs.info.items():
+        if i.kind == "test" and isinstance(i.ast, ast.Compare) and len(i.ast.ops) == 1 and \
+                isinstance(i.ast.ops[0], (ast.Is, ast.IsNot)) and isinstance(i.ast.comparators[0], ast.Constant) \
+                and i.ast.comparators[0].value is None and "addr" in unparse(i.ast.left):
+            for bn in cfgs.g.successors(tn):
+                bi = cfgs.info[bn]
+                if bi.kind == "branch" and bi.value == isinstance(i.ast.ops[0], ast.IsNot):
+                    known.add(bn)
+    ys0 = cfgs.nodes_where(lambda n: isinstance(n, ast.Yield))
+    guard = bool(known) and bool(ys0) and all(cfgs.path_avoiding(cfgs.entry, y, known) is None for y in ys0)
+    chk.ob(rule, key + ":address-known", guard, f.loc(),
+           "nodes_on must yield only nodes whose address is known (not None)", 2)
     ys = [y for y in walk_no_nested(f.node) if isinstance(y, ast.Yield)]
     under = len(ys) == 1 and any(any(y in list(ast.walk(s)) for s in tests[0].body) for y in ys)
     chk.ob(rule, key + ":yields-under-test", under, f.loc(), "the node must be yielded exactly under the test", 1)
@@ -432,3 +443,62 @@ def scan_at(chk: Check, rule: str) -> None:
     chk.ob(rule, key + ":address-in-range", ok, f.loc(),
            "nodes_at must keep exactly the nodes whose address is known and a member of the requested "
            "range: %s" % why, 3)
+
+
+def range_helpers(chk: Check, rule: str) -> None:
+    """get_desired_range(a) is range(a, a + 1) for an int and the range itself otherwise; the
+    thin wrappers hand tree, query and adjustment on to the implementation with the getter of
+    their key space"""
+    repo = chk.repo
+    from ..terms import OutsideFragment, function_term, show
+    f = util_function(repo, "get_desired_range")
+    chk.saw(f)
+    p = f.param_names()[0]
+    rets = [r for r in walk_no_nested(f.node) if isinstance(r, ast.Return) and r.value is not None]
+    ok = False
+    why = ""
+    ints = [r for r in rets if isinstance(r.value, ast.Call) and attr_path(r.value.func) == ("range",)]
+    same = [r for r in rets if attr_path(r.value) == (p,)]
+    if len(ints) == 1 and len(same) == 1 and len(rets) == 2 and len(ints[0].value.args) == 2:
+        a, b = ints[0].value.args
+        try:
+            la = _lin(a, lambda e: ({"A": 1}, 0) if attr_path(e) == (p,) else None)
+            lb = _lin(b, lambda e: ({"A": 1}, 0) if attr_path(e) == (p,) else None)
+            ok = la == ({"A": 1}, 0) and lb == ({"A": 1}, 1)
+            why = "int case is %s" % unparse(ints[0].value)
+        except Outside as e:
+            why = str(e)
+        # the int case is taken for ints
+        par = getattr(ints[0], "_parent", None)
+        ok = ok and isinstance(par, ast.If) and ints[0] in par.body and isinstance(par.test, ast.Call) and \
+            attr_path(par.test.func) == ("isinstance",) and (dotted(par.test.args[1]) or ("",))[-1] == "int"
+    chk.ob(rule, "util.get_desired_range:point-is-unit-range", ok, f.loc(),
+           "a single address a must become range(a, a + 1) and a range must be passed through (%s)" % why, 3)
+    table = {"_nodes_on_interval_tree": ("_nodes_on_interval_tree_impl", "interval_getter", "_address_interval", True),
+             "_nodes_at_interval_tree": ("_nodes_at_interval_tree_impl", "bounds_getter", "_address_interval", True),
+             "_nodes_on_interval_tree_offset": ("_nodes_on_interval_tree_impl", "interval_getter", "_offset_interval", False),
+             "_nodes_at_interval_tree_offset": ("_nodes_at_interval_tree_impl", "bounds_getter", "_offset_interval", False)}
+    for nm, (impl, gkw, getter, adj) in table.items():
+        g = repo.module("util").functions.get(nm)
+        if g is None:
+            continue        # lookups may call the implementation directly
+        chk.saw(g)
+        ps = g.param_names()
+        calls = [c for c in walk_no_nested(g.node) if isinstance(c, ast.Call) and attr_path(c.func) == (impl,)]
+        ok = len(calls) == 1
+        why = "no call of %s" % impl
+        if ok:
+            c = calls[0]
+            kw = {k.arg: k.value for k in c.keywords}
+            ok = len(c.args) >= 2 and attr_path(c.args[0]) == (ps[0],) and attr_path(c.args[1]) == (ps[1],) and \
+                attr_path(kw.get(gkw, ast.Constant(0))) == (getter,)
+            if adj:
+                ok = ok and attr_path(kw.get("adjustment", ast.Constant(0))) == ("adjustment",) and "adjustment" in ps
+            else:
+                ok = ok and "adjustment" not in kw
+            why = unparse(c)[:80]
+            rets = [r for r in walk_no_nested(g.node) if isinstance(r, ast.Return)]
+            ok = ok and len(rets) == 1 and rets[0].value is c
+        chk.ob(rule, "util.%s:forwards" % nm, ok, g.loc(),
+               "%s must return %s(tree, query, %s=%s%s): %s" % (
+                   nm, impl, gkw, getter, ", adjustment=adjustment" if adj else "", why), 3)
